@@ -40,6 +40,9 @@ CHECKS = {
     'C16': ('model_checking', 'sequential kernels of the real StringIO/BytesIO over a scripted fake connection (real readline/readbytes): stale data, '
             'time-outs under a virtual clock with symbolic recv steps, multicomm delays (symbolic), reconnect rate limit at symbolic instants, '
             'reconnect callbacks, framing under chunkings chosen by symbolic selectors', '5/C16'),
+    'C13': ('model_checking', 'the real Module.__pollThread body executed in the calling thread in virtual time: symbolic start time, symbolic durations and '
+            'symbolic failure kinds of the first poll functions, run-time interval changes at a symbolic wake-up; oracle on the event log: main poll gap '
+            '<= interval + one sweep, slow polls not starved, unpolled parameters never read, failures survived, new interval effective from the next wake-up', '5/C13'),
 }
 NOT_YET = 'check not built yet in this round (planned per DESIGN.md section 5); not claimed until its harness runs clean'
 NOT_APPLICABLE = {}
